@@ -230,6 +230,37 @@ func mutants(n *node.Node, base *blockchain.Block, o node.BlockOpts, r *rand.Ran
 		reseal(n, b, key)
 		return true
 	})
+	if certified > 0 {
+		// an empty commit may only repeat the certified height
+		for _, h := range []uint32{certified - 1, 0} {
+			h := h
+			if h == certified {
+				continue
+			}
+			add("aggregateCommit:empty-with-stale-height", true, func(b *blockchain.Block) bool {
+				b.Header.AggregateCommit = &blockchain.AggregateCommit{Height: h, AggregationBits: codec.Hex{}, CertificateSignature: codec.Hex{}}
+				reseal(n, b, key)
+				return true
+			})
+		}
+		// a non-empty, honest aggregate for an already certified height
+		add("aggregateCommit:honest-but-not-above-certified", true, func(b *blockchain.Block) bool {
+			hdr, err := n.Chain.DataAccess().GetBlockHeaderByHeight(certified)
+			if err != nil || hdr.AggregateCommit == nil {
+				return false
+			}
+			// re-use the commit that certified this height: find the block that carried it
+			for h := certified; h <= tip.Height; h++ {
+				bh, err := n.Chain.DataAccess().GetBlockHeaderByHeight(h)
+				if err == nil && bh.AggregateCommit != nil && bh.AggregateCommit.Height == certified && !bh.AggregateCommit.Empty() {
+					b.Header.AggregateCommit = bh.AggregateCommit
+					reseal(n, b, key)
+					return true
+				}
+			}
+			return false
+		})
+	}
 	garbageSig := bytes.Repeat([]byte{0xab}, 96)
 	add("aggregateCommit:garbage-signature", true, func(b *blockchain.Block) bool {
 		if precommitted <= certified {
